@@ -590,6 +590,8 @@ pub proof fn lemma_last(p: &Partition, count: int, requested: int, start: int)
     ensures
         start >= first_retained(p) ==> slice_of(log(p), start, start + requested - 1) == last_n(log(p), count),
         start < first_retained(p) ==> forall|r: Seq<RetainedMessage>| #[trigger] earliest_run(log(p), r, start, requested) ==> r == last_n(log(p), count),
+        // (after the F230 repair the poll below the earliest retained offset answers exactly: the slice from the earliest one)
+        start < first_retained(p) ==> slice_of(log(p), first_retained(p), first_retained(p) + requested - 1) == last_n(log(p), count),
 {
     let l = log(p); let f = first_retained(p);
     if p.segments@.len() > 0 {
@@ -601,6 +603,9 @@ pub proof fn lemma_last(p: &Partition, count: int, requested: int, start: int)
             assert forall|r: Seq<RetainedMessage>| #[trigger] earliest_run(l, r, start, requested) implies r == last_n(l, count) by {
                 assert(r =~= l);
             }
+            lemma_slice_window(l, f, f, f + requested - 1);
+            assert(window(l, f, f, f + requested - 1) =~= l);
+            assert(l =~= last_n(l, count));
         }
     } else {
         lemma_slice_empty(l, 1, 0);
